@@ -590,6 +590,9 @@ func c44Worker(w *WorkerCtx) {
 		w.Emit(WorkResult{Kind: "harness-error", Msg: fmt.Sprintf("C44 corpus missing or unreadable in %s: %v", corpusDir(), err)})
 		return
 	}
+	if !c44TypeSweep(w) {
+		return
+	}
 	nw := numCPU()
 	if v := os.Getenv("VERIF_C44_WORKERS"); v != "" {
 		fmt.Sscanf(v, "%d", &nw)
